@@ -124,9 +124,7 @@ class Interp:
         if a.vararg:
             env[a.vararg.arg] = Tup(extra_pos)
         if a.kwarg:
-            env[a.kwarg.arg] = Tup([]) if not kwargs else Opaque('kwargs')
-            if kwargs:
-                env['**' + a.kwarg.arg] = kwargs
+            env[a.kwarg.arg] = Const(dict(kwargs))
         elif kwargs:
             self.unsupported('unexpected keyword(s) %s for %s' % (sorted(kwargs), fsym.qname), node)
         rec = None
